@@ -321,8 +321,7 @@ func GetAttr(v Value, attr Value, args ...Value) (Value, error) {
 			retval = mapIndex(r, key)
 		}
 	case reflect.Slice, reflect.Array:
-		index := int(CoerceNumber(attr))
-		if index >= 0 && index < r.Len() {
+		if index, ok := sliceIndex(attr); ok && index >= 0 && index < r.Len() {
 			retval = r.Index(index)
 		}
 	}
@@ -384,6 +383,32 @@ func mapIndex(m, key reflect.Value) (v reflect.Value) {
 		}
 	}()
 	return m.MapIndex(key)
+}
+
+// sliceIndex returns attr as the index of a slice or array element. Only a
+// number, or a string that spells one, can be an index; a word, a boolean or
+// null is not silently taken for index 0.
+func sliceIndex(attr Value) (int, bool) {
+	if sv, ok := attr.(SafeValue); ok {
+		attr = sv.Value()
+	}
+	if _, ok := attr.(Number); ok {
+		return int(CoerceNumber(attr)), true
+	}
+	switch reflect.ValueOf(attr).Kind() {
+	case reflect.Int, reflect.Int8, reflect.Int16, reflect.Int32, reflect.Int64,
+		reflect.Uint, reflect.Uint8, reflect.Uint16, reflect.Uint32, reflect.Uint64, reflect.Uintptr,
+		reflect.Float32, reflect.Float64:
+		return int(CoerceNumber(attr)), true
+	case reflect.Invalid, reflect.Bool:
+		return 0, false
+	}
+	// Strings, Stringers and decimals: by what they spell.
+	f, err := strconv.ParseFloat(CoerceString(attr), 64)
+	if err != nil {
+		return 0, false
+	}
+	return int(f), true
 }
 
 // fieldByName is r.FieldByName, except that a field promoted through an
